@@ -153,7 +153,7 @@ REGISTRY = {"C24": c24}
 # ------------------------------------------------------------------------------------------------
 # C22 / C23: compile and run the generated code
 # ------------------------------------------------------------------------------------------------
-AST_FLAGS = ["lr", "clipA", "clipT", "memT", "memN", "opt", "rep", "grp", "nest", "reprep", "cliponly", "allclip", "boxed", "range", "trim", "userT", "ntt"]
+AST_FLAGS = ["lr", "clipA", "clipT", "memT", "memN", "opt", "rep", "grp", "nest", "reprep", "cliponly", "cmtT", "allclip", "boxed", "range", "trim", "userT", "ntt"]
 
 
 def ast_template(on):
@@ -176,7 +176,9 @@ def ast_template(on):
     dpart = f"( {d} | {e} )" if "grp" in on else d
     # cliponly: a production whose only member is a clipped non-terminal (its struct has no field at all)
     tr = "Tr " if "cliponly" in on else ""
-    s += f"S: {a} {tr}{bpart} {cpart} {dpart} Num;\n"
+    # cmtT: a terminal whose text opens a Rust block comment (it is quoted in a comment of the generated struct)
+    ct = " '/*'" + c if "cmtT" in on else ""
+    s += f"S: {a} {tr}{bpart} {cpart} {dpart} Num{ct};\n"
     if "cliponly" in on:
         s += "Tr: Q^;\nQ: 'q';\n"
     s += f"A: 'a'{c};\nB: 'b'{c} 'x'{c};\nC: 'c'{c};\n"
@@ -224,6 +226,10 @@ def ast_template(on):
                     toks.append("7")
                     if not c:
                         exp.append("7")
+                    if "cmtT" in on:
+                        toks.append("/*")
+                        if not c:
+                            exp.append("/*")
                     cases.append((toks, exp, {"nb": nb, "has_c": hc}))
     return s, cases
 
